@@ -52,8 +52,9 @@ func init() {
 		Thorough: sim.Budget{Runs: 60000, WallS: 840},
 		LevelText: "seeded search: honest sim clients build and sign real transactions (both signature schemes, send / data / smart-contract shapes, boundary values); " +
 			"a simulated byzantine link mutates one wire field per delivery (every JSON-visible field of transaction.Transaction found by reflection; numbers +-1/other, strings bit-flipped/replaced/extended/emptied, type switched) " +
-			"or forges sender/key/signature combinations; the receiver runs the shipped submission path (JSON decode, ComputeProperties, ValidateWrtTime) or the shipped in-block path (Block.ComputeProperties, miner ValidateTransactions). " +
-			"A clean batch is evidence, not proof",
+			"or forges sender/key/signature combinations; the receiver runs the shipped submission path (JSON decode, ComputeProperties, ValidateWrtTime) or the shipped in-block path (Block.ComputeProperties, miner ValidateTransactions); " +
+			"plus histories in one process: the genuine transaction and copies of it with an effect-relevant field changed (hash recomputed or left as signed, original signature attached) are offered 2..5 times in seeded order through seeded entry points " +
+			"(submission path, in-block path, VerifyHash+VerifySignature on their own) - the genuine one must be accepted and the copies rejected every time, whatever was validated before. A clean batch is evidence, not proof",
 		LevelNote: "input-class property hosted in the simulation: schedules and crashes contribute nothing, the simulator contributes realistic signed messages and the tamper fault. " +
 			"Transaction.Validate reads the wall clock, so the submission receiver calls its two constituents (IsHash(ToClientID), ValidateWrtTime) with the simulated receive time instead; nonce/balance/fee-floor checks of chain.PutTransaction need ledger state and are not part of this property",
 		Technique: "deterministic simulation: seeded byzantine tamper fault on a simulated link, per struct field by reflection; receiver = real transaction/client/encryption/miner code",
@@ -119,8 +120,26 @@ func genC30(seed uint64, tier string) *sim.Plan {
 		}
 	}
 	r.Shuffle(len(p.Steps), func(i, j int) { p.Steps[i], p.Steps[j] = p.Steps[j], p.Steps[i] })
+	// histories in one process: the genuine transaction and tampered copies of it (an effect-relevant field changed,
+	// hash recomputed or not, the original signature attached) are offered one after the other, in seeded order and
+	// through seeded entry points.  Drawn after the shuffle: the steps above keep their arguments.
+	for i, n := 0, r.Range(2, 4); i < n; i++ {
+		st := mk("history", c30Effect[r.Intn(len(c30Effect))])
+		for k, m := 0, r.Range(2, 5); k < m; k++ {
+			variant := r.Pick([]int{2, 3, 1}) // genuine, tampered + hash recomputed, tampered
+			if k == 0 && r.Intn(4) != 0 {
+				variant = 0
+			}
+			st.I = append(st.I, int64(variant+3*r.Intn(3))) // 7.. variant + 3*entry point
+		}
+		at := r.Intn(len(p.Steps) + 1)
+		p.Steps = append(p.Steps[:at], append([]sim.Step{st}, p.Steps[at:]...)...)
+	}
 	return p
 }
+
+// fields a "history" step alters: what the transaction does or costs
+var c30Effect = []string{"CreationDate", "Nonce", "ToClientID", "Value", "TransactionData", "Fee", "Value", "ToClientID"}
 
 // buildTxn: the honest sender. Real Provider + real Sign.
 func buildTxn(cl *simClient, to string, shape int, sel int64, now common.Timestamp, executed bool) *transaction.Transaction {
@@ -272,6 +291,110 @@ func execC30(env *sim.Env, p *sim.Plan) *sim.Result {
 		label := st.Op
 		switch st.Op {
 		case "honest":
+		case "history":
+			if _, named := c30Named[field]; !named {
+				tr.Outcome("skip/unknown-field")
+				continue
+			}
+			// one signed transaction; the in-block wire form additionally carries what the generator adds after execution
+			t := buildTxn(cls[a], cls[o].id, shape, st.Int(4, 0)+5000, now, false)
+			var w transaction.Transaction
+			wire0, _ := json.Marshal(t)
+			if err := json.Unmarshal(wire0, &w); err != nil {
+				panic(err)
+			}
+			f, _ := fieldByPath(reflect.ValueOf(&w), field)
+			alt := ""
+			switch field {
+			case "ToClientID":
+				alt = cls[(o+1)%nc].id
+				if alt == w.ToClientID || alt == w.ClientID {
+					alt = encryption.Hash("somebody else")
+				}
+			case "TransactionData":
+				alt = buildTxn(cls[a], cls[o].id, (shape+1+int(st.Int(2, 0))%(c30Shapes-1))%c30Shapes, st.Int(4, 0)+1, now, false).TransactionData
+			}
+			kind := int(st.Int(1, 0)) % mutKinds
+			if !mutateLeaf(f, kind, st.Int(2, 0), alt) {
+				tr.Outcome("skip/no-effect")
+				continue
+			}
+			w.Signature = t.Signature        // the original signature stays attached
+			wirePlain, _ := json.Marshal(&w) // hash left as signed
+			w.Hash = w.ComputeHash()
+			wireRehashed, _ := json.Marshal(&w)
+			seenGenuine := false
+			for k := 7; k < len(st.I); k++ {
+				variant, entry := int(st.I[k])%3, int(st.I[k]/3)%3
+				var x transaction.Transaction
+				from, what := wire0, "genuine"
+				switch variant {
+				case 1:
+					from, what = wireRehashed, "tampered+rehash"
+				case 2:
+					from, what = wirePlain, "tampered"
+				}
+				if err := json.Unmarshal(from, &x); err != nil {
+					panic(err)
+				}
+				if entry == 1 { // in-block
+					x.TransactionOutput = fmt.Sprintf(`{"ok":%d}`, st.Int(4, 0))
+					x.OutputHash = x.ComputeOutputHash()
+					x.Status = transaction.TxnSuccess
+				}
+				wire, err := json.Marshal(&x)
+				if err != nil {
+					panic(err)
+				}
+				var got *transaction.Transaction
+				var stage string
+				var rerr error
+				entryName := []string{"submit", "block", "verify"}[entry]
+				switch entry {
+				case 0, 1:
+					got, stage, rerr = receiveTxn(wire, entry, recvNow, rc)
+				default:
+					// the two verification calls on their own, as any other caller of the entity would use them
+					e := transaction.Provider().(*transaction.Transaction)
+					stage = "verify"
+					if rerr = json.Unmarshal(wire, e); rerr == nil {
+						if rerr = e.ComputeProperties(); rerr == nil {
+							if rerr = e.VerifyHash(context.Background()); rerr == nil {
+								rerr = e.VerifySignature(context.Background())
+							}
+						}
+					}
+					if rerr == nil {
+						got, stage = e, "accepted"
+					}
+				}
+				accepted := rerr == nil
+				if variant != 0 {
+					tr.Fault("history_" + what)
+					if seenGenuine {
+						tr.Fault("history_tampered_after_genuine")
+					}
+				}
+				if accepted && variant != 0 && sameField(got, t, field) {
+					tr.Probe("tamper-normalised/" + field)
+					tr.Outcome("history/normalised")
+					continue
+				}
+				tr.Event("history %s %s/m%d via %s after-genuine=%v shape=%d scheme=%s -> %s/%s", what, field, kind, entryName, seenGenuine, shape, scheme, stage, errCode(rerr))
+				tr.Outcome(fmt.Sprintf("history/%s/%s/%v/%v", what, entryName, seenGenuine, accepted))
+				switch {
+				case variant == 0 && !accepted:
+					viol("honest-delivery", "honest/rejected", fmt.Sprintf("untampered transaction rejected via %s (delivery %d of a history), scheme %s: %s: %v", entryName, k-6, scheme, stage, rerr))
+				case variant != 0 && accepted:
+					viol("tamper", "tamper/"+field+"/accepted",
+						fmt.Sprintf("transaction with altered %s (%s of the statement; mutation m%d; hash %s; original signature) accepted via %s, scheme %s, shape %d; the genuine transaction had %sbeen validated by this process before",
+							field, c30Named[field], kind, map[int]string{1: "recomputed", 2: "as signed"}[variant], entryName, scheme, shape, map[bool]string{true: "", false: "not "}[seenGenuine]))
+				}
+				if variant == 0 && accepted {
+					seenGenuine = true
+				}
+			}
+			continue
 		case "tamper", "kind":
 			if !known[field] {
 				tr.Outcome("skip/unknown-field")
